@@ -102,6 +102,7 @@ type simState struct {
 	gen     uint64 // simulation generation this state belongs to
 	writer  bool
 	readers int
+	wwait   int // writers waiting (RWMutex): new readers queue behind them
 	waiters []*simrt.Task
 }
 
@@ -183,7 +184,8 @@ func (m *Mutex) Unlock() {
 	m.st.wakeAll(s)
 }
 
-// RWMutex is sync.RWMutex (without writer preference under simulation).
+// RWMutex is sync.RWMutex, including its writer preference: once a writer waits,
+// new readers wait behind it (which is what makes a recursive read lock a deadlock).
 type RWMutex struct {
 	real sync.RWMutex
 	st   simState
@@ -204,7 +206,9 @@ func (rw *RWMutex) Lock() {
 	for rw.st.writer || rw.st.readers > 0 {
 		rw.st.waiters = append(rw.st.waiters, t)
 		s.Count("sync.rwmutex_contended", 1)
+		rw.st.wwait++
 		t.Block("rwmutex wait")
+		rw.st.wwait--
 	}
 	rw.st.writer = true
 	// a writer sees what earlier writers (rsem) and earlier readers (wsem) released
@@ -244,7 +248,7 @@ func (rw *RWMutex) RLock() {
 	s := t.Sim()
 	rw.st.fresh(s)
 	t.Yield("rwmutex rlock")
-	for rw.st.writer {
+	for rw.st.writer || rw.st.wwait > 0 {
 		rw.st.waiters = append(rw.st.waiters, t)
 		s.Count("sync.rwmutex_contended", 1)
 		t.Block("rwmutex rwait")
